@@ -1047,7 +1047,7 @@ func (w *World) getArchetypes(filter Filter) []*archetype {
 			continue
 		}
 
-		if rf, ok := filter.(*RelationFilter); ok {
+		if rf, ok := filter.(*RelationFilter); ok && nd.HasRelation {
 			target := rf.Target
 			if arch, ok := nd.archetypeMap[target]; ok {
 				arches = append(arches, arch)
